@@ -17,7 +17,9 @@ CHECKS = {
         text="Theorems c17_closure_exact / c17_redirects_exact: for every inclusion graph (cyclic or not), flag set and "
              "functional redirect relation the modelled worklist terminates with an empty stack and marks exactly the closure "
              "plus one-hop redirects. The model is tied to core.py:analyze_templates by running both on exhaustive small and "
-             "random graphs and comparing marked sets inside Coq; the property itself is also evaluated directly on the real code.",
+             "random graphs and comparing marked sets inside Coq; the property itself is also evaluated directly on the real code. "
+             "c17_reanalysis_is_analysis_from_scratch / c17_analysis_is_idempotent: a second analysis seeded with the marks found "
+             "in the store plus new flags, over a grown inclusion graph, marks exactly what one analysis of everything marks.",
         note=TRUST + "SQLite UPDATE..FROM semantics exercised, not modelled; classifier returns exact stored names.",
         ref="DESIGN.md section 4 C17"),
     "C10": dict(
@@ -162,7 +164,12 @@ CHECKS = {
              "the returned tree satisfies Model.Tree.wf - the ten-clause well-formedness predicate, written in Coq and evaluated "
              "by vm_compute on every real tree - for token soups over a 110-atom alphabet, grammar documents, span mutations of "
              "the repository's own test pages, nesting ladders to depth 100 and placeholder inputs, with and without "
-             "pre_expand/expand_all. The token handlers and the tokenizer are not modelled, so there is no totality theorem.",
+             "pre_expand/expand_all. Theorems c01_table_trees_are_well_formed and "
+             "c01_table_handlers_keep_the_stack_well_formed: for the table handlers (Model/Tables.v, tied to the parser by C03's "
+             "check on written tables and token soups) the table clause of wf is an invariant of the parser stack, so every tree "
+             "they return for ANY sequence of table tokens and text has rows/captions directly under tables and cells directly "
+             "under rows, at every depth. The other token handlers and the tokenizer are not modelled, so there is no totality "
+             "theorem for parse().",
         note=TRUST + "tree serialiser and string abstraction (empty / contains placeholder) trusted.",
         ref="DESIGN.md section 4 C01"),
     "C03": dict(
